@@ -61,37 +61,20 @@ def _unescape_tla_string(s: str) -> str:
     return json.loads('"' + s + '"')
 
 
+_RE_EMIT = re.compile(r'<<"T", "((?:[^"\\]|\\.)*)">>')
+
+
 def parse_emitted(text: str) -> List[Any]:
-    """Extract <<"T", "<json>">> tuples from TLC output (robust to interleaving by scanning
-    for the marker and matching the closing '">>' that is not preceded by a backslash)."""
+    """Extract <<"T", "<json>">> tuples from TLC output (order of emission)."""
     out: List[Any] = []
-    marker = '<<"T", "'
-    i = 0
-    n = len(text)
-    while True:
-        j = text.find(marker, i)
-        if j < 0:
-            break
-        k = j + len(marker)
-        # find terminating unescaped quote followed by >>
-        p = k
-        while p < n:
-            c = text[p]
-            if c == "\\":
-                p += 2
-                continue
-            if c == '"':
-                break
-            p += 1
-        if p >= n or text[p:p + 3] != '">>':
-            i = k
-            continue
-        payload = text[k:p]
+    for m in _RE_EMIT.finditer(text):
+        payload = m.group(1)
         try:
-            out.append(json.loads(_unescape_tla_string(payload)))
+            if "\\" in payload:
+                payload = _unescape_tla_string(payload)
+            out.append(json.loads(payload))
         except Exception as e:  # pragma: no cover
             raise TLCError(f"cannot parse emitted case: {payload[:200]!r}: {e}")
-        i = p + 3
     return out
 
 
